@@ -298,7 +298,11 @@ def run(tier: str) -> int:
     dsn = tlc.run_tlc('Downstream', 'MC_Downstream_negative.cfg', workers=8, coverage=False)
     if dsn['violated'] != 'NeverNegative':       # reachability witness: capture can consume more than a year produced
         raise MachineryFailure(f'Downstream.tla: NeverNegative expected to be violated (reachability), got {dsn["violated"]}')
-    out = sim.run_many(build_jobs(tier), 'harness.c02:project')
+    jobs_ = build_jobs(tier)
+    # each of a seeded choice of the jobs once more, followed in the same process by neighbours that restate ONE of its figures: a value
+    # kept from one run for the next (a memo keyed by too few arguments, a mutated default) shows in the neighbour's own trace
+    chains = sim.neighbour_chains(jobs_, 10 if tier == 'quick' else 60, 3, seed() * 101 + 2, prefer=('Utilization Factor', 'Plant Lifetime', 'Production Flow Rate per Well', 'Injection Temperature', 'End-Use Efficiency Factor', 'Number of Production Wells'))
+    out = sim.run_many(jobs_, 'harness.c02:project') + sim.run_chains(chains, 'harness.c02:project')
     counts = validate(res, out)
     need = ['C02_extract', 'C02_net', 'C02_useful_heat', 'C02_useful_heatpump', 'C02_useful_cooling', 'C02_conservation_elec',
             'C02_conservation_topping', 'C02_conservation_bottoming', 'C02_conservation_parallel', 'C02_useful_parallel',
